@@ -272,6 +272,17 @@ def evalNode (r : Rec N) (node : Node N) (data : Option (Val N)) (env : Nat) :
   | .cmpop op l rr => do
     let a ← r.ev l data env
     let b ← r.ev rr data env
+    -- `=`, `!=` and `in` on two function values that are not built-ins compare object identity in the
+    -- implementation (a closure equals itself, never another one); values of the model have no identity,
+    -- so the executable model abstains (the specification `comparisonOp` treats them as different objects)
+    let fnKind : Val N → Nat := fun v => match v with
+      | .lambda .. => 1 | .partialFn .. => 2 | .transformFn .. => 3 | .chain .. => 4 | .regexFn .. => 5 | .matchNext _ => 6 | _ => 0
+    let identity : Bool := match op, a, b with
+      | .eq, some x, some y => fnKind x != 0 && fnKind x == fnKind y
+      | .ne, some x, some y => fnKind x != 0 && fnKind x == fnKind y
+      | .in_, some x, some y => fnKind x != 0 && (arrayify (some y)).any (fun z => fnKind z == fnKind x)
+      | _, _, _ => false
+    if identity then liftE (.error (.unsupported "identity of function values"))
     liftE (comparisonOp op a b)
   | .boolop op l rr => do
     let a ← r.ev l data env
